@@ -12,6 +12,13 @@ NOTES = "All checks are bounded-exhaustive model checking of the real Go code (h
 NOT_APPLICABLE = {}
 
 TEXT = {
+    "C20": dict(
+        engine="choice (E1)",
+        design_ref="DESIGN.md §3 C20",
+        technique="bounded-exhaustive enumeration of generated source trees x every iteration order of every map-typed range (Go's map iteration turned into an explorer choice by a go/types-driven rewrite) against an independent scanner",
+        text="redirects.go is type-checked and every map-typed range in it is rewritten to iterate in an order the explorer chooses; FindRedirects then runs on generated trees (every single item and ordered pair of 11 declaration kinds incl. look-alikes on vars, types, in bodies, detached or trailing comments, prose mentions; triples; multi-file trees with nested directories, _test.go and non-Go files) under every iteration order (full product for one map, deviation-bounded across several). The table must contain exactly the (source symbol, fully qualified destination) pairs an independent go/parser scanner finds on function declarations, and must be identical under every explored iteration order; the kernel tree itself is checked against the scanner.",
+        note="Any deterministic order is accepted; the ELF symbol lookup (CompleteRedirects) is outside the property.",
+    ),
     "C18": dict(
         engine="graph (E2)",
         design_ref="DESIGN.md §3 C18",
